@@ -461,6 +461,99 @@ fn create_inbound_scmp_error(err: PacketPolicyError) -> scmp::model::ScmpMessage
     }
 }
 
+/// Simulation seam (cargo feature `verif-hooks`): the gateway's treatment of one datagram that a
+/// tunnel forwarded, outside the serving loop (which is tied to a UDP socket).
+///
+/// The datagram is received into a buffer of a gateway packet pool, checked by the inbound packet
+/// policy and - if refused - answered with the SCMP error [`TunnelGateway`] builds, encoded into
+/// another buffer of the same pool, exactly as the serving loop does.
+#[cfg(feature = "verif-hooks")]
+pub mod verif {
+    use std::{net::IpAddr, sync::Arc, time::Instant};
+
+    use sciparse::{
+        address::{addr::ScionAddr, host_addr::ScionHostAddr},
+        identifier::isd_asn::IsdAsn,
+        packet::view::ScionPacketView,
+    };
+    use snap_tun::server::SnapTunAuthorization;
+
+    use super::{PACKET_BUF_SIZE, PacketPool, TunnelGateway};
+    use crate::{
+        dispatcher::Dispatcher,
+        tunnel_gateway::{NoopTunnelGatewayObserver, packet_policy::inbound_datagram_check},
+    };
+
+    struct NoAuthz;
+    impl SnapTunAuthorization for NoAuthz {
+        type SessionData = ();
+        fn is_authorized(&self, _now: Instant, _identity: &[u8; 32]) -> Option<Arc<()>> {
+            None
+        }
+    }
+
+    struct NoDispatch;
+    impl Dispatcher for NoDispatch {
+        fn try_dispatch(&self, _packet: &ScionPacketView) {}
+    }
+
+    /// What the gateway does with a forwarded datagram.
+    #[derive(Debug)]
+    pub enum Inbound {
+        /// The datagram passes the inbound policy and is dispatched into the SCION network.
+        Dispatch,
+        /// The datagram is refused; these bytes are sent back through the tunnel.
+        Answer(Vec<u8>),
+        /// The datagram is refused and no answer could be built.
+        NoAnswer(String),
+    }
+
+    /// A gateway packet pool with the serving loop's buffer size.
+    pub struct Gateway {
+        pool: PacketPool,
+    }
+
+    impl Gateway {
+        /// Creates a pool of `capacity` buffers.
+        pub fn new(capacity: usize) -> Self {
+            Self {
+                pool: PacketPool::new(capacity),
+            }
+        }
+
+        /// The size of the gateway's packet buffers.
+        pub fn buffer_size() -> usize {
+            PACKET_BUF_SIZE
+        }
+
+        /// Treats one datagram (at most [`Self::buffer_size`] bytes) forwarded by the tunnel of
+        /// the peer with address `peer_ip`; `local_ip` is the gateway's own address.
+        pub fn inbound(&self, datagram: &[u8], peer_ip: IpAddr, local_ip: IpAddr) -> Inbound {
+            let mut received = self.pool.get();
+            received[..datagram.len()].copy_from_slice(datagram);
+            received.truncate(datagram.len());
+            match inbound_datagram_check(&received[..], peer_ip) {
+                Ok(_) => Inbound::Dispatch,
+                Err(e) => {
+                    let mut target_buf = self.pool.get();
+                    match TunnelGateway::<NoAuthz, NoDispatch, NoopTunnelGatewayObserver>::create_scmp_error(
+                        e,
+                        ScionHostAddr::from(local_ip),
+                        ScionAddr::new(IsdAsn::WILDCARD, peer_ip.into()),
+                        &mut target_buf,
+                    ) {
+                        Ok(n) => {
+                            target_buf.truncate(n);
+                            Inbound::Answer(target_buf[..].to_vec())
+                        }
+                        Err(e) => Inbound::NoAnswer(format!("{e:?}")),
+                    }
+                }
+            }
+        }
+    }
+}
+
 #[cfg(test)]
 mod tests {
     use std::{
